@@ -305,7 +305,7 @@ def run_tlc(
     return res
 
 
-_RE_TRACE_STATE = re.compile(r"^State (\d+): <([^>]*)>\n((?:.*\n)*?)(?=\n|\Z)", re.M)
+_RE_TRACE_STATE = re.compile(r"^State (\d+): <(.*)>\n((?:.*\n)*?)(?=\n|\Z)", re.M)
 
 
 def parse_error_trace(out: str) -> list[dict[str, Any]]:
@@ -423,6 +423,7 @@ class TraceVerdict:
     length: int
     reached: int                      # longest prefix some spec behaviour explains
     flags: list[tuple[int, str]]      # (step, property name) where a property formula was false
+    details: dict[tuple[int, str], list[tuple[str, str]]] = field(default_factory=dict)
 
     @property
     def accepted(self) -> bool:
@@ -469,8 +470,18 @@ def validate_traces(module: str, cfg: str, traces: list[list[dict[str, Any]]], *
         rmap = {i + 1: int(v) for i, v in enumerate(reached)}
     out = []
     for i, tr in enumerate(traces, start=1):
-        fl = sorted((int(x[1]), str(x[2])) for x in flags if int(x[0]) == i)
-        out.append(TraceVerdict(i, len(tr), rmap.get(i, 0), fl))
+        fl: list[tuple[int, str]] = []
+        det: dict[tuple[int, str], list[tuple[str, str]]] = {}
+        for x in flags:
+            if int(x[0]) != i:
+                continue
+            name = x[2]
+            key = (int(x[1]), str(name[0]))
+            if key not in fl:
+                fl.append(key)
+            det.setdefault(key, []).append((str(name[1]), str(name[2])))
+        fl.sort()
+        out.append(TraceVerdict(i, len(tr), rmap.get(i, 0), fl, det))
     return out, res
 
 
